@@ -50,11 +50,16 @@ package extractor
 //@   sweep idx slice div assert
 //@   opaque
 //@   modifies nothing
+// IsM3U8: a response announcing either playlist media type, in any letter case and with or
+// without parameters, is handed to the playlist extractor (proved; the rest stays assumed).
+//@ pred ctHas(u *models.URL, t string) = strings.Contains(strings.ToLower(u.response.Header.Get("Content-Type")), t)
 //@ func IsM3U8
-//@   property C10
+//@   property C10,C19
 //@   sweep idx slice div assert
+//@   attr proved types
 //@   opaque
 //@   modifies nothing
+//@   ensures [types] @C19 result == (ctHas(URL, "application/vnd.apple.mpegurl") || ctHas(URL, "application/x-mpegurl")) // C19: from an M3U8 playlist every segment, variant and alternative-rendition URI (the dispatch recognises both playlist media types)
 //@ func IsJSON
 //@   property C10
 //@   sweep idx slice div assert
